@@ -110,6 +110,43 @@ def stage_candidates(sc: Dict[str, Any]) -> Dict[str, str]:
     return _record_dump(record)
 
 
+def stage_detect(sc: Dict[str, Any]) -> Dict[str, str]:
+    """ rule based detection with a generated rule set whose profiles are dynamic profiles answering
+        from the scenario's hit table, then the same steps as main.run_detection """
+    from antismash.common import json as as_json
+    from antismash.common.hmm_rule_parser import rule_parser
+    from antismash.common.hmm_rule_parser.cluster_prediction import Ruleset, detect_protoclusters_and_signatures
+    from antismash.common.hmm_rule_parser.structures import DynamicHit, DynamicProfile
+    from sim.world.records import build_record
+    record = build_record(dict(sc["record"], protos=[], subs=[], create=False))
+    hits = sc["hits"]
+
+    def make_profile(name: str) -> DynamicProfile:
+        def find_hits(rec: Any, _hmmer_hits: Any) -> Dict[str, List[DynamicHit]]:
+            present = {cds.get_name() for cds in rec.get_cds_features()}
+            found: Dict[str, List[DynamicHit]] = {}
+            for hit in hits:
+                if hit["profile"] == name and hit["cds"] in present:
+                    found.setdefault(hit["cds"], []).append(DynamicHit(hit["cds"], name, bitscore=float(hit["bitscore"])))
+            return found
+        return DynamicProfile(name, f"simulated profile {name}", find_hits)
+    profiles = {name: make_profile(name) for name in sc["profiles"]}
+    rules = rule_parser.Parser(sc["rules"], set(profiles), set(sc["categories"])).rules
+    ruleset = Ruleset(tuple(rules), {}, "unused", set(sc["categories"]), "rule-based-clusters",
+                      dynamic_profiles=profiles, equivalence_groups=[])
+    results = detect_protoclusters_and_signatures(record, ruleset)
+    results.annotate_cds_features()
+    out = {"detection_json": as_json.dumps(results.to_json(), indent=True)}
+    for protocluster in results.protoclusters:
+        record.add_protocluster(protocluster)
+    record.create_candidate_clusters()
+    record.create_regions()
+    out["protoclusters"] = _canon([[p.get_protocluster_number(), str(p.location), str(p.core_location), p.product]
+                                   for p in record.get_protoclusters()])
+    out.update(_record_dump(record))
+    return out
+
+
 def stage_pipeline(sc: Dict[str, Any], salt: int) -> Dict[str, str]:
     from sim.world import pipeline as P
     work = P.scratch_dir("c17_")
@@ -154,6 +191,8 @@ def process(scenario: Dict[str, Any], salt: int) -> Dict[str, str]:
         return stage_filter(scenario)
     if kind == "candidates":
         return stage_candidates(scenario)
+    if kind == "detect":
+        return stage_detect(scenario)
     if kind == "pipeline":
         return stage_pipeline(scenario, int(salt))
     raise ValueError(f"unknown scenario kind {kind}")
